@@ -897,8 +897,12 @@ rt_prop("C13", ["bridge", "core", "cancel"],
         "(aborted_command_releases_tasks), an answered one-shot/notification entry is forgotten (answered_entry_forgotten). The full "
         "registry statement is FALSE on the code (registry_bounded_full_false: notifications are registered and never removed; "
         "finished_stream_entry_stays) — known findings registry-retains-never / registry-retains-finished-many — and holds for "
-        "batches of resolvable requests (registry_bounded_partial). Occupancy of all slabs is compared with the model after every "
-        "call through the crux_verif hooks.",
+        "batches of resolvable requests (registry_bounded_partial). OVER WHOLE RUNS (finished_commands_leave_the_executor_flat, "
+        "…_bridge_flat; invariants QI + OC, Lemmas/Occ.lean): for every app without combinators (+ host-free legacy tasks), after "
+        "every history, when any further call has returned every executor task that hosts a command hosts a LIVE command that is "
+        "NOT DONE, and no command is hosted twice — a finished or dropped command never remains in the executor, so its occupancy "
+        "by commands is bounded by the commands with outstanding work, whatever the length of the history. Occupancy of all slabs "
+        "is compared with the model after every call through the crux_verif hooks.",
         goals=["tasks_released_goal"])
 
 # ---------------------------------------------------------------- conc engine (C08)
